@@ -427,6 +427,17 @@ func genXR(r *Rand, tier string, emit func(string)) {
 		"000000ffff000000ffff34c086050020916cb2a50bd20369da192deaff3bda05f81dc08605002021ab44219b4aff7fd6de3bf8",
 		"04c086050020191d53a1a508c9e8ff5bda7bf83cc08605002019293a24a55464a585faff9bf600f804c08605002019493a2494d050560afd7f4c7bfb25008705000048c82a51e880f4ff834df0",
 	}
+	// regression scenarios for the repaired defects D1 (two in-chunk seeks) and D2 (empty buffer)
+	{
+		data := make([]byte, 1000)
+		for i := range data {
+			data[i] = byte(i * 7)
+		}
+		s, p, _ := buildXflate(xwCfg{level: 6, chunk: 400, index: 0}, []xwOp{{kind: 'W', data: data}})
+		for _, ops := range []string{"S:100:0|S:200:0|R:4", "R:0|R:1", "S:100:0|R:0|S:50:1|S:7:1|R:3|S:399:0|S:1:1|R:5", "S:5:0|S:10:1|S:380:1|S:3:1|R:10"} {
+			emit(fmt.Sprintf("xr stream=%s plain=%s ops=%s", hx(s), hx(p), ops))
+		}
+	}
 	streams := genXrStreams(r, nStreams, 300)
 	for _, h := range fixed {
 		streams = append(streams, xrStream{stream: unhx(h)})
